@@ -84,7 +84,7 @@ def _run_one(args):
 def _run_one_fast(args):
     seed, idx, kw, lazy_p = args
     rng = random.Random((seed * 1000003 + idx) & 0xFFFFFFFF)
-    ckw = {k: v for k, v in kw.items() if k in ("tree", "T", "comm", "spread", "integer", "late", "crash", "D")}
+    ckw = {k: v for k, v in kw.items() if k in ("tree", "T", "comm", "spread", "integer", "late", "crash", "D", "delist")}
     gkw = {k: v for k, v in kw.items() if k in treegen.GEN_KEYS}
     if "trees" in kw:
         ckw["tree"] = rng.choice(kw["trees"])
